@@ -258,6 +258,7 @@ func run(id, tier string, replayFiles []string) int {
 	sem := make(chan struct{}, 16)
 	var acquire sync.Mutex
 	var wg sync.WaitGroup
+	var buildBroken []string
 
 	needBin := false
 	for i := range p.Units {
@@ -284,7 +285,11 @@ func run(id, tier string, replayFiles []string) int {
 		}
 		bin, err := build(scratch, u)
 		if err != nil {
-			fatal2("build of %s harness failed (broken check, not a violation): %v", u.Name, err)
+			// a harness that reaches into the package (a private function whose signature the tree
+			// changed) no longer builds: that unit decides nothing, the other units still run, and a
+			// violation one of them finds is a violation; without one the check is inconclusive
+			buildBroken = append(buildBroken, fmt.Sprintf("build of %s harness failed (broken check, not a violation): %v", u.Name, err))
+			continue
 		}
 		total := u.Quick
 		timeout := u.QuickTimeoutS
@@ -437,7 +442,7 @@ func run(id, tier string, replayFiles []string) int {
 	merged := statsFile{Labels: map[string]int{}, Counters: map[string]int64{}, KnownHits: map[string]int{}}
 	nontriv := map[string]bool{}
 	var violations []failFile
-	var broken []string
+	broken := append([]string{}, buildBroken...)
 	unitEvals := map[string]int{}
 	sort.Slice(results, func(a, b int) bool {
 		if results[a].unit.Name != results[b].unit.Name {
